@@ -214,8 +214,15 @@ def oracleExpect (c : CaseIn) (chunks : List Bytes) (rkv : KV) : Option String :
     | some want =>
       let g := ";".intercalate kevs
       if "=" ++ g = want then none else some (c.camp ++ ":xk:got=" ++ g ++ ":want" ++ want)
+  let bevs := ((get rkv "ev").splitOn ";").filter (fun e => e.startsWith "b+" ∨ e.startsWith "b." ∨ e.startsWith "b-")
+  let chkB : Option String := match c.kv.lookup "xb" with
+    | none => none
+    | some want =>
+      let g := ";".intercalate bevs
+      if "=" ++ g = want then none else some (c.camp ++ ":xb:got=" ++ g ++ ":want" ++ want)
   (chk "xp" afterZ).orElse fun _ =>
   chkEv.orElse fun _ =>
+  chkB.orElse fun _ =>
   chkK.orElse fun _ =>
   (chk "xpre" notes).orElse fun _ =>
   match c.kv.lookup "xend" with
